@@ -19,6 +19,7 @@ structure Cfg.Good (c : Cfg) : Prop where
   childrenGuarded : c.childrenGuarded = true
   ppidGuarded : c.ppidGuarded = true
   lowestStop : c.lowestStop = true
+  goneRaises : c.goneRaises = true
 
 /-! ## Small facts about the building blocks -/
 
@@ -346,23 +347,39 @@ theorem desc_filter_self {pm : PpidMap} {look : Look} {ct root c : Nat} :
 
 /-! ## The identity pre-check -/
 
-theorem raise_false {look0 : Look} {me : Caller} (hr : me.reused = false) (hn : ¬ Recycled look0 me) :
-    (raiseIfPidReused look0 me).2 = false := by
-  unfold raiseIfPidReused isRunning
-  simp only [hr, Bool.false_eq_true, if_false, Bool.or_false]
-  cases hgone : me.gone with
-  | true => simp [hr]
-  | false =>
-    simp only [Bool.false_eq_true, if_false]
-    cases hl : look0 me.pid with
-    | none => simp
-    | some s =>
-      by_cases hs : s = me.ctime
-      · simp [hs]
-      · exact absurd ⟨s, hl, hs⟩ hn
+theorem raise_false (g : Bool) {look0 : Look} {me : Caller} (hr : me.reused = false)
+    (hgone : me.gone = false) (ha : Alive look0 me) :
+    (raiseIfPidReused g look0 me).2 = false := by
+  unfold Alive at ha
+  simp [raiseIfPidReused, isRunning, hr, hgone, ha]
 
-theorem raise_true {look0 : Look} {me : Caller} (hg : me.gone = false ∨ me.reused = true)
-    (h : Recycled look0 me) : (raiseIfPidReused look0 me).2 = true := by
+/-- with the `_gone` test: anything but a live, unflagged incarnation raises -/
+theorem raise_true_of_dead {look0 : Look} {me : Caller}
+    (h : ¬ Alive look0 me ∨ me.gone = true ∨ me.reused = true) :
+    (raiseIfPidReused true look0 me).2 = true := by
+  unfold Alive at h
+  unfold raiseIfPidReused isRunning
+  cases hre : me.reused with
+  | true => simp
+  | false =>
+    cases hgone : me.gone with
+    | true => simp [hre, hgone]
+    | false =>
+      cases hl : look0 me.pid with
+      | none => simp
+      | some s =>
+        by_cases hs : s = me.ctime
+        · subst hs
+          rcases h with h | h | h
+          · exact absurd hl h
+          · rw [hgone] at h; cases h
+          · rw [hre] at h; cases h
+        · simp [hs]
+
+/-- without the `_gone` test a recycled PID is still noticed, but only by an object that has not
+    been seen gone before -/
+theorem raise_true (g : Bool) {look0 : Look} {me : Caller} (hg : me.gone = false ∨ me.reused = true)
+    (h : Recycled look0 me) : (raiseIfPidReused g look0 me).2 = true := by
   obtain ⟨s, hl, hs⟩ := h
   unfold raiseIfPidReused isRunning
   cases hre : me.reused with
@@ -374,20 +391,27 @@ theorem raise_true {look0 : Look} {me : Caller} (hg : me.gone = false ∨ me.reu
       · rw [hre] at h; cases h
     simp [hgone, hl, hs]
 
+theorem not_alive_of_recycled {look0 : Look} {me : Caller} (h : Recycled look0 me) : ¬ Alive look0 me := by
+  obtain ⟨s, hl, hs⟩ := h
+  intro ha
+  unfold Alive at ha
+  rw [ha] at hl
+  exact hs (Option.some.inj hl).symm
+
 /-! ## children() under a good configuration -/
 
 /-- the map the walkers use under a good configuration -/
 def goodMap (root : Nat) (pm : PpidMap) : PpidMap := pm.filter fun e => e.1 != root
 
 theorem children_flat_good (c : Cfg) (hg : c.Good) (me : Caller) (look0 : Look) (pm : PpidMap)
-    (look : Look) (hraise : (raiseIfPidReused look0 me).2 = false) :
+    (look : Look) (hraise : (raiseIfPidReused true look0 me).2 = false) :
     (children c me false look0 pm look).2
       = .ok (kids (accepted .le me.ctime look) (goodMap me.pid pm) me.pid) := by
-  simp [children, hg.childrenGuarded, hraise, usedMap, hg.skipSelf, hg.childOp, childrenFlat, kids,
+  simp [children, hg.childrenGuarded, hg.goneRaises, hraise, usedMap, hg.skipSelf, hg.childOp, childrenFlat, kids,
     goodMap]
 
 theorem children_rec_good (c : Cfg) (hg : c.Good) (me : Caller) (look0 : Look) (pm : PpidMap)
-    (look : Look) (hraise : (raiseIfPidReused look0 me).2 = false) :
+    (look : Look) (hraise : (raiseIfPidReused true look0 me).2 = false) :
     ∃ seen' : List Nat,
       (children c me true look0 pm look).2
         = .ok (seen'.reverse.flatMap (kids (accepted .le me.ctime look) (goodMap me.pid pm)))
@@ -411,7 +435,7 @@ theorem children_rec_good (c : Cfg) (hg : c.Good) (me : Caller) (look0 : Look) (
     refine ⟨seen', ?_, hnd, hmem⟩
     have hw' := hw
     unfold goodMap at hw'
-    simp [children, hg.childrenGuarded, hraise, usedMap, hg.skipSelf, hg.descOp, hg.seenGuard, hw', hr,
+    simp [children, hg.childrenGuarded, hg.goneRaises, hraise, usedMap, hg.skipSelf, hg.descOp, hg.seenGuard, hw', hr,
       goodMap]
 
 theorem child_goodMap_iff {pm : PpidMap} {look : Look} {ct root p c : Nat} :
